@@ -18,7 +18,12 @@
 //! recursive lambda - at every capture position for both kinds of capture; body template X: EXECUTION
 //! ENVIRONMENTS - a recursion of millions of levels on a caller thread that arranged a 1 GiB stack, calls from
 //! several threads at once, a closure moved to another thread, a lambda created and called inside the body of a
-//! lambda; these run in child processes of the generated binary, the hand-written version first), compiles them
+//! lambda; these run in child processes of the generated binary, the hand-written version first; body template G:
+//! recursive-call arguments that create TEMPORARIES WITH DESTRUCTORS - a guard object whose method result is
+//! passed, a reference into a temporary guard / String / Vec, a RefCell borrow or a MutexGuard dereferenced and
+//! passed by value, a block with locals - every class at every argument position; every argument expression and
+//! every guard notes itself in a journal that each activation reads on entry, so the order of evaluation of the
+//! arguments and the lifetime of their temporaries relative to the call show in the results), compiles them
 //! against the REAL macro with cargo -
 //! once with the flags of a release build and once with debug assertions and overflow checks on, because
 //! `cfg(debug_assertions)` inside a macro is decided in the invoking crate -, runs the produced binaries and
@@ -339,12 +344,16 @@ struct RunOut {
     results: BTreeMap<usize, ShapeOut>,
     /// shapes during which the process died (stack overflow, abort), with the exit status text
     crashed: Vec<(usize, String)>,
+    /// activations of the temporaries family (both versions) that found, on entry, a guard alive / the RefCell
+    /// borrowed / a mutex held
+    journal_entries: [u64; 3],
 }
 
 /// Run the generated binary; on a crash, attribute it to the announced shape and restart after it.
 fn run_binary(bin: &Path, ids: &[usize]) -> RunOut {
     let mut results = BTreeMap::new();
     let mut crashed = vec![];
+    let mut journal_entries = [0u64; 3];
     let mut from = 0usize;
     let last = ids.iter().copied().max().unwrap_or(0);
     loop {
@@ -369,6 +378,10 @@ fn run_binary(bin: &Path, ids: &[usize]) -> RunOut {
                 begun = Some(b as usize);
             } else if v["done"] == true {
                 done = true;
+            } else if let Some(e) = v["journal_entries"].as_array() {
+                for (slot, x) in journal_entries.iter_mut().zip(e) {
+                    *slot += x.as_u64().unwrap_or(0);
+                }
             } else if let Some(id) = v["id"].as_u64() {
                 let strs = |k: &str| -> Vec<String> {
                     v[k].as_array().map(|a| a.iter().map(|x| x.as_str().unwrap_or("?").to_string()).collect()).unwrap_or_default()
@@ -404,7 +417,7 @@ fn run_binary(bin: &Path, ids: &[usize]) -> RunOut {
             _ => machinery(&format!("the generated binary ended abnormally ({status}) outside any shape")),
         }
     }
-    RunOut { results, crashed }
+    RunOut { results, crashed, journal_entries }
 }
 
 /// Compile every shape separately (metadata only) with `rustc --extern rlib_lambda=<rlib>`, in parallel.
@@ -503,8 +516,8 @@ fn first_difference(sh: &Shape, out: &ShapeOut, grid: &[Tuple]) -> Option<(usize
                 format!(
                     "shape {} on {} {}: rec_lambda version gave {} = {} but the hand-written recursive fn gave {}",
                     sh.descriptor(),
-                    if sh.body == 'T' || sh.body == 'E' { "driver tuple" } else { "arguments" },
-                    if sh.body == 'E' {
+                    if sh.body == 'T' || sh.body == 'E' || sh.body == 'G' { "driver tuple" } else { "arguments" },
+                    if sh.body == 'E' || sh.body == 'G' {
                         format!("{:?} (called twice with values of the parameter types built from the first component v: argument k gets `top(v + k)`, then `top(v + k + 7)`, see the driver in the sample / generated source)", grid[i])
                     } else if sh.body == 'T' {
                         format!("{:?} (the closure is created once and called four times; the data behind the arguments is built from the tuple, mutated after call 1, replaced by short-lived temporaries for call 3 and recreated before call 4)", grid[i])
@@ -544,6 +557,7 @@ fn tier_shapes(thorough: bool) -> Vec<(usize, Shape)> {
     v.extend(gen::enumerate_named(thorough));
     v.extend(gen::enumerate_captyped(thorough));
     v.extend(gen::enumerate_env(thorough));
+    v.extend(gen::enumerate_temporaries(thorough));
     v.into_iter().enumerate().collect()
 }
 /// Number of library crates the shapes of a build are spread over (shape id modulo this number): with the two
@@ -702,7 +716,7 @@ fn main() {
     let mut run = Run::new(&args, "lambda", "exploration");
     let thorough = args.tier == Tier::Thorough;
     let plan = tier_plan(thorough);
-    let bodies: Vec<char> = plan.iter().map(|(b, _)| *b).chain(['T', 'E', 'N', 'K', 'X']).collect();
+    let bodies: Vec<char> = plan.iter().map(|(b, _)| *b).chain(['T', 'E', 'N', 'K', 'X', 'G']).collect();
     let shapes: Vec<(usize, Shape)> = tier_shapes(thorough);
     let n_fixed: usize = plan.iter().map(|(_, a)| 31 * a.len() * 2 * 2).sum();
     let typed: Vec<&Shape> = shapes.iter().map(|(_, s)| s).filter(|s| s.body == 'T').collect();
@@ -710,7 +724,8 @@ fn main() {
     let named: Vec<&Shape> = shapes.iter().map(|(_, s)| s).filter(|s| s.body == 'N').collect();
     let captyped: Vec<&Shape> = shapes.iter().map(|(_, s)| s).filter(|s| s.body == 'K').collect();
     let envs: Vec<&Shape> = shapes.iter().map(|(_, s)| s).filter(|s| s.body == 'X').collect();
-    let n_later = typed.len() + expected.len() + named.len() + captyped.len() + envs.len();
+    let temporaries: Vec<&Shape> = shapes.iter().map(|(_, s)| s).filter(|s| s.body == 'G').collect();
+    let n_later = typed.len() + expected.len() + named.len() + captyped.len() + envs.len() + temporaries.len();
     if shapes.len() - n_later != n_fixed {
         run.machinery_failure(&format!("enumerated {} shapes of the templates with the fixed argument types, expected {n_fixed}", shapes.len() - n_later));
     }
@@ -793,6 +808,26 @@ fn main() {
                         c.name,
                         k + 1
                     ));
+                }
+            }
+        }
+    }
+    // non-vacuity of the temporaries family: every class of temporaries occurs at every argument position of every
+    // argument count, also among the shapes that show more than termination
+    let tclasses = gen::tclasses();
+    let temp_cells = |observable_only: bool| -> BTreeSet<(usize, usize, &str)> {
+        temporaries
+            .iter()
+            .filter(|s| !(observable_only && s.trivially_observable()))
+            .flat_map(|s| (0..s.nargs).map(move |k| (s.nargs, k, s.temps[k].as_str())))
+            .collect()
+    };
+    let (temp_all, temp_observable) = (temp_cells(false), temp_cells(true));
+    for nargs in 1..=4usize {
+        for k in 0..nargs {
+            for c in tclasses {
+                if !temp_observable.contains(&(nargs, k, c.name)) {
+                    run.machinery_failure(&format!("temporaries family: class {} never occurs at position {} of {nargs} argument(s) in a shape with a return value or a mutable capture", c.name, k + 1));
                 }
             }
         }
@@ -893,6 +928,7 @@ fn main() {
     let mut named_run = 0u64;
     let mut captyped_run = 0u64;
     let mut envs_run = 0u64;
+    let mut temporaries_run = 0u64;
     // stack that the hand-written version spans in the deep runs: (smallest, largest) over shapes and builds
     let mut deep_span: Option<(u64, u64)> = None;
     let mut deep_span_macro = 0u64;
@@ -953,6 +989,7 @@ fn main() {
             named_run += (sh.body == 'N') as u64;
             captyped_run += (sh.body == 'K') as u64;
             envs_run += (sh.body == 'X') as u64;
+            temporaries_run += (sh.body == 'G') as u64;
             if sh.env == "deep" {
                 // the deep recursion must be deep for the hand-written fn: well beyond any "big enough" fixed
                 // stack (64 .. 256 MiB), and well within the stack the caller arranged
@@ -1052,6 +1089,13 @@ fn main() {
     run.cov("expected_type_shift_counts_of_the_loop_sites", json!(gen::E_SHIFTS.to_vec()));
     run.cov("expected_type_(argument_count,position,class)_cells_covered", json!({"all": expected_all.len(), "in_shapes_with_observable_results": expected_observable.len(), "of": 10 * classes.len()}));
     run.cov("expected_type_driver_tuples", grids[0].len() as u64);
+    run.cov("programs_with_temporaries_in_arguments", temporaries.len() as u64);
+    run.cov("temporaries_classes", json!(tclasses.iter().map(|c| json!({"class": c.name, "parameter_type": c.ty, "what": c.what, "recursive_call_arguments": c.exprs})).collect::<Vec<_>>()));
+    run.cov("temporaries_(argument_count,position,class)_cells_covered", json!({"all": temp_all.len(), "in_shapes_with_observable_results": temp_observable.len(), "of": 10 * tclasses.len()}));
+    run.cov(
+        "temporaries_activations_entered_with_(guard_alive,refcell_borrowed,mutex_held)",
+        json!(outs.iter().map(|o| json!({"build": o.profile.describe(), "both_versions_together": o.run.journal_entries.to_vec()})).collect::<Vec<_>>()),
+    );
     run.cov("programs_with_identifier_collisions", named.len() as u64);
     run.cov("identifier_collision_schemes", json!(naming_schemes.iter().collect::<Vec<_>>()));
     run.cov("identifier_collision_(capture_pattern,argument_count,scheme)_cells", namings.len() as u64);
@@ -1083,7 +1127,7 @@ fn main() {
     run.cov("crate_under_test", CRATE_PATH);
     run.cov(
         "rule",
-        "every shape = (capture sequence of length 0..=4 over {&,&mut}, 1..=4 arguments, return type i64/none, recursive calls plain/trailing comma, body template; the templates and the argument counts each is emitted with are listed in body_templates_with_argument_counts: A two calls ordered by a branch, B early returns, C calls in a loop / match arm and a nested call, D argument expressions with effects — a recursive call nested in an argument of a recursive call (as a sub-expression, or as a statement of a block argument when nothing is returned), block arguments that mutate every mutable capture before yielding their value, and an argument computed from a value popped off a mutable Vec capture; D occurs in both tiers for every capture pattern, both return forms and both call syntaxes; these have the argument types i64, i64, u32, bool) plus the typed-argument family T: for every capture pattern and argument count, type vectors over the classes I by-value i64, B bool, S shared slice &[i64], M &mut Vec<i64> passed as an ARGUMENT (re-borrowed in the recursive calls, implicitly and as &mut *a), O owned Vec<i64> / String (cloned for the first recursive call, moved into the last) such that every class occurs at every argument position (five rotation vectors; further vectors — all arguments of one class, one non-integer class among integers — all in thorough, one per cell in quick), body = early return when the first argument is exhausted, then two recursive calls; the T driver creates the closure once and calls it four times, MUTATING the data behind the arguments after call 1, passing short-lived temporaries in call 3 and dropping and recreating the data before call 4, exactly as it drives the hand-written fn; plus the expected-type family E: the arguments of the recursive calls are expressions whose type NOTHING BUT THE PARAMETER fixes, so the macro version only agrees with the fn if the macro hands the parameter type down to the argument expression as a direct call does — parameter classes u8 u16 u32 u64 usize u128 i8 i16 i32 i64 isize i128 with unsuffixed-literal expressions (the largest value of the type, `!0 >> 1`, the smallest value, 2^32 written as a sum of two literals above i32::MAX, and in a loop over the shift counts expected_type_shift_counts_of_the_loop_sites `1 << (k % BITS)` and `!0 >> (k % BITS)` with a u32 variable k: values beyond the i32 / u32 range for every type that holds them), f32 / f64 with float literals (one that rounds differently to f32 directly and via f64, sums that differ between f32 and f64 arithmetic, the extreme finite values), literals nested in a tuple / Some / slice / vec!, and expressions that need the expected type to infer at all: Default::default(), .into(), .parse().unwrap(), Vec::new() / vec![], .collect(), .sum() / .product() / .max(), a String built by .into() / .collect(), None, closures with untyped parameters passed as fn(i64) -> i64 and as &dyn Fn(i64) -> i64 (all listed in expected_type_classes); for every capture pattern and argument count class vectors by rotation so that every class occurs at every argument position of every argument count (two rotations per cell with complementary (return type, call syntax) in quick, all in thorough); body = three levels of activations (a depth counter next to the shape modules, the same in both versions), the driver's activation makes 2 calls per shift count and 3 plain calls, each of those one more; the driver passes typed values built from the first tuple component; plus the identifier-collision family N (fixed argument types; body = early return, `max(..)` imported by `use std::cmp::max`, `Some(..)`, `drop(..)`, two recursive calls in a `for` loop and one after it, with a local and the loop variable in scope at the calls): the recursion is named like an argument (every position), like a captured variable (every position of every capture pattern), like the body's local, like the loop variable, like the variable the closure is bound to, like `max` / `drop` / `Some` / `vec` / `format`; an argument (every position), the local, the loop variable, the closure's variable or the recursion itself carries the name of the macro's hidden helper fn (hidden_helper_identifier); or every identifier is the name of one of the macro's metavariables (scheme meta) — the hand-written fn is called `hand` and takes the same names, so it compiles in every scheme (quick: per capture pattern and argument count one rec:arg, one rec:cap, one arg:hidden and one position-independent scheme, rotating; thorough: all); plus the capture-type family K (body of A, fixed argument types): the DECLARED TYPE of every capture comes from the classes listed in capture_type_classes — for `&` captures plain data (i64, String), tuple / array / fn pointer, generic containers (Vec<Vec<i64>>, BTreeMap<i64, Vec<i64>> with a comma inside the type, Option<Box<i64>>), unsized types ([i64] and str, the captured variable being the owner or already a reference), `impl Trait` (impl Fn(i64) -> i64 and impl Fn(usize, usize) -> u64 over local closures that borrow local data — the only way to capture a closure without dyn —, impl Display, impl AsRef<[i64]>), `dyn Trait` (dyn Fn over a closure and over a Box<dyn Fn>, dyn Debug), references / lifetimes inside the type (Vec<&str>, [&'static str], Option<&i64>, (&str, &[i64])), types that are not Send / Sync (Rc<Vec<i64>>, Cell<i64> and RefCell<Vec<i64>> — MUTATED through the shared capture), and another recursive lambda captured as impl Fn; for `&mut` captures Vec / i64 / String / tuple / array / fn pointer / BTreeMap / [i64] / str, impl FnMut(i64, i64) (a local closure that logs into a local Vec), impl Iterator<Item = i64>, impl fmt::Write, dyn FnMut(i64), dyn Iterator<Item = i64>, Box<dyn FnMut(i64) -> i64> (owning its state), Vec<&str>, Option<&str>, Rc (make_mut), RefCell (get_mut), and another recursive lambda with a mutable capture of its own captured as impl FnMut; the body reads every shared capture and changes every mutable one in the way of its class, the hand-written fn takes the same declared types as parameters, the driver renders what each capture holds after the last call (the closures' logs, the iterators' next item, the boxed closure's state); for every capture pattern with at least one capture, class vectors (quick: capture_type_vectors_per_pattern per pattern, every position taking the classes of its kind round-robin so that every class occurs at every capture position 0..3 for its kind; thorough: every class at every position of every capture pattern), argument count / return type / call syntax rotating; plus the execution-environment family X (default capture types, fixed argument types, body = a PATH: one recursive call per activation, depth = the first argument; Vec captures log near the leaves and every 65536 levels): the programs listed in programs_with_execution_environments, the same in both tiers — `deep`: the driver runs on a thread it gave deep_caller_stack_bytes of stack and recurses deep_recursion_levels levels (the body keeps a 16-word buffer across the recursive call; the hand-written fn measurably spans deep_stack_spanned_by_the_hand_written_fn_bytes_min_max bytes of stack, checked to lie between 300 MiB and three quarters of the caller's stack) after a shallow call of the same closure; `threads_own`: four threads released by a barrier, each with its own captured data and closure; `threads_shared`: one closure with shared captures only, called through `&` by four threads at the same time; `moved`: the closure is called, then moved to another thread and called there; `nested`: every activation of the body creates another recursive lambda over a local of the activation (mutable) and the outer lambda's shared captures, calls it and folds its result and log into its own; in the X programs the hand-written side is the closure `|arguments| hand(arguments, &captures…)` written out, driven by the same text; every (version, driver tuple) of an X program runs in a child process of its own that the generated binary starts from itself, the hand-written version first, so that a version that overflows its stack or aborts yields the result DIED(signal n) instead of taking the run down. Every shape is emitted as a rec_lambda! invocation and as a hand-written recursive fn with the same body, compiled against the real macro (as several library crates linked into one program) twice — without and with debug assertions / overflow checks — and run on every argument tuple of a fixed grid; an evaluation = one (shape, build, tuple) comparison of (results of all calls, every capture, every &mut argument's data). A shape is non-trivial when the reference's results differ between at least two tuples of the grid (measured, counted once per shape); shapes with neither return value nor mutable capture nor &mut argument show only termination and are excluded",
+        "every shape = (capture sequence of length 0..=4 over {&,&mut}, 1..=4 arguments, return type i64/none, recursive calls plain/trailing comma, body template; the templates and the argument counts each is emitted with are listed in body_templates_with_argument_counts: A two calls ordered by a branch, B early returns, C calls in a loop / match arm and a nested call, D argument expressions with effects — a recursive call nested in an argument of a recursive call (as a sub-expression, or as a statement of a block argument when nothing is returned), block arguments that mutate every mutable capture before yielding their value, and an argument computed from a value popped off a mutable Vec capture; D occurs in both tiers for every capture pattern, both return forms and both call syntaxes; these have the argument types i64, i64, u32, bool) plus the typed-argument family T: for every capture pattern and argument count, type vectors over the classes I by-value i64, B bool, S shared slice &[i64], M &mut Vec<i64> passed as an ARGUMENT (re-borrowed in the recursive calls, implicitly and as &mut *a), O owned Vec<i64> / String (cloned for the first recursive call, moved into the last) such that every class occurs at every argument position (five rotation vectors; further vectors — all arguments of one class, one non-integer class among integers — all in thorough, one per cell in quick), body = early return when the first argument is exhausted, then two recursive calls; the T driver creates the closure once and calls it four times, MUTATING the data behind the arguments after call 1, passing short-lived temporaries in call 3 and dropping and recreating the data before call 4, exactly as it drives the hand-written fn; plus the expected-type family E: the arguments of the recursive calls are expressions whose type NOTHING BUT THE PARAMETER fixes, so the macro version only agrees with the fn if the macro hands the parameter type down to the argument expression as a direct call does — parameter classes u8 u16 u32 u64 usize u128 i8 i16 i32 i64 isize i128 with unsuffixed-literal expressions (the largest value of the type, `!0 >> 1`, the smallest value, 2^32 written as a sum of two literals above i32::MAX, and in a loop over the shift counts expected_type_shift_counts_of_the_loop_sites `1 << (k % BITS)` and `!0 >> (k % BITS)` with a u32 variable k: values beyond the i32 / u32 range for every type that holds them), f32 / f64 with float literals (one that rounds differently to f32 directly and via f64, sums that differ between f32 and f64 arithmetic, the extreme finite values), literals nested in a tuple / Some / slice / vec!, and expressions that need the expected type to infer at all: Default::default(), .into(), .parse().unwrap(), Vec::new() / vec![], .collect(), .sum() / .product() / .max(), a String built by .into() / .collect(), None, closures with untyped parameters passed as fn(i64) -> i64 and as &dyn Fn(i64) -> i64 (all listed in expected_type_classes); for every capture pattern and argument count class vectors by rotation so that every class occurs at every argument position of every argument count (two rotations per cell with complementary (return type, call syntax) in quick, all in thorough); body = three levels of activations (a depth counter next to the shape modules, the same in both versions), the driver's activation makes 2 calls per shift count and 3 plain calls, each of those one more; the driver passes typed values built from the first tuple component; plus the identifier-collision family N (fixed argument types; body = early return, `max(..)` imported by `use std::cmp::max`, `Some(..)`, `drop(..)`, two recursive calls in a `for` loop and one after it, with a local and the loop variable in scope at the calls): the recursion is named like an argument (every position), like a captured variable (every position of every capture pattern), like the body's local, like the loop variable, like the variable the closure is bound to, like `max` / `drop` / `Some` / `vec` / `format`; an argument (every position), the local, the loop variable, the closure's variable or the recursion itself carries the name of the macro's hidden helper fn (hidden_helper_identifier); or every identifier is the name of one of the macro's metavariables (scheme meta) — the hand-written fn is called `hand` and takes the same names, so it compiles in every scheme (quick: per capture pattern and argument count one rec:arg, one rec:cap, one arg:hidden and one position-independent scheme, rotating; thorough: all); plus the capture-type family K (body of A, fixed argument types): the DECLARED TYPE of every capture comes from the classes listed in capture_type_classes — for `&` captures plain data (i64, String), tuple / array / fn pointer, generic containers (Vec<Vec<i64>>, BTreeMap<i64, Vec<i64>> with a comma inside the type, Option<Box<i64>>), unsized types ([i64] and str, the captured variable being the owner or already a reference), `impl Trait` (impl Fn(i64) -> i64 and impl Fn(usize, usize) -> u64 over local closures that borrow local data — the only way to capture a closure without dyn —, impl Display, impl AsRef<[i64]>), `dyn Trait` (dyn Fn over a closure and over a Box<dyn Fn>, dyn Debug), references / lifetimes inside the type (Vec<&str>, [&'static str], Option<&i64>, (&str, &[i64])), types that are not Send / Sync (Rc<Vec<i64>>, Cell<i64> and RefCell<Vec<i64>> — MUTATED through the shared capture), and another recursive lambda captured as impl Fn; for `&mut` captures Vec / i64 / String / tuple / array / fn pointer / BTreeMap / [i64] / str, impl FnMut(i64, i64) (a local closure that logs into a local Vec), impl Iterator<Item = i64>, impl fmt::Write, dyn FnMut(i64), dyn Iterator<Item = i64>, Box<dyn FnMut(i64) -> i64> (owning its state), Vec<&str>, Option<&str>, Rc (make_mut), RefCell (get_mut), and another recursive lambda with a mutable capture of its own captured as impl FnMut; the body reads every shared capture and changes every mutable one in the way of its class, the hand-written fn takes the same declared types as parameters, the driver renders what each capture holds after the last call (the closures' logs, the iterators' next item, the boxed closure's state); for every capture pattern with at least one capture, class vectors (quick: capture_type_vectors_per_pattern per pattern, every position taking the classes of its kind round-robin so that every class occurs at every capture position 0..3 for its kind; thorough: every class at every position of every capture pattern), argument count / return type / call syntax rotating; plus the execution-environment family X (default capture types, fixed argument types, body = a PATH: one recursive call per activation, depth = the first argument; Vec captures log near the leaves and every 65536 levels): the programs listed in programs_with_execution_environments, the same in both tiers — `deep`: the driver runs on a thread it gave deep_caller_stack_bytes of stack and recurses deep_recursion_levels levels (the body keeps a 16-word buffer across the recursive call; the hand-written fn measurably spans deep_stack_spanned_by_the_hand_written_fn_bytes_min_max bytes of stack, checked to lie between 300 MiB and three quarters of the caller's stack) after a shallow call of the same closure; `threads_own`: four threads released by a barrier, each with its own captured data and closure; `threads_shared`: one closure with shared captures only, called through `&` by four threads at the same time; `moved`: the closure is called, then moved to another thread and called there; `nested`: every activation of the body creates another recursive lambda over a local of the activation (mutable) and the outer lambda's shared captures, calls it and folds its result and log into its own; in the X programs the hand-written side is the closure `|arguments| hand(arguments, &captures…)` written out, driven by the same text; every (version, driver tuple) of an X program runs in a child process of its own that the generated binary starts from itself, the hand-written version first, so that a version that overflows its stack or aborts yields the result DIED(signal n) instead of taking the run down; plus the temporaries family G (default capture types; return type i64): the arguments of the recursive calls are expressions that create TEMPORARIES WITH DESTRUCTORS — in the hand-written `hand(<expression>, …)` such a temporary lives until the enclosing statement ends, i.e. through the whole recursive call, and the macro version must agree — from the classes listed in temporaries_classes: a guard object whose method result is passed by value (one and two guards per argument), a reference into a temporary guard (through a method and to a field), a shared borrow of a RefCell dereferenced and passed by value, a MutexGuard dereferenced and passed by value, a reference into a temporary String (`.to_string().as_str()`, a sub-slice of a returned String) or Vec (`&vec![..][1..]`, `.as_slice()`), a block expression with a guard as a local / as a temporary of its tail expression, and a plain by-value expression; EVERY argument expression notes its (site, position) tag in a per-thread journal next to the shape modules when it is evaluated, guards note their creation and their destruction, and every activation reads the journal ON ENTRY — number of guards alive, order-sensitive digest of all events so far, whether the RefCell can be borrowed mutably, how many mutexes are held — and folds it into its result and into every mutable capture, so both the ORDER in which the arguments are evaluated and the LIFETIME of their temporaries relative to the call show in the results and in the captured state (and a reference into a temporary must compile, as it does for the fn); three levels of activations; call sites: initialiser of a `let`, inside a larger expression, two calls in one statement (the first call's temporaries live through the second), expression statements when nothing is returned; class vectors by rotation (argument p gets class (p + r) mod 8; quick: r = index of the capture pattern, the (return type, call syntax) combination moving on with every pattern and once more with every full turn; thorough: every r for every pattern) so that every class occurs at every argument position of every argument count (temporaries_(argument_count,position,class)_cells_covered). Every shape is emitted as a rec_lambda! invocation and as a hand-written recursive fn with the same body, compiled against the real macro (as several library crates linked into one program) twice — without and with debug assertions / overflow checks — and run on every argument tuple of a fixed grid; an evaluation = one (shape, build, tuple) comparison of (results of all calls, every capture, every &mut argument's data). A shape is non-trivial when the reference's results differ between at least two tuples of the grid (measured, counted once per shape); shapes with neither return value nor mutable capture nor &mut argument show only termination and are excluded",
     );
     run.assume("a shape's compile verdict is the verdict of cargo/rustc of the installed tool chain on the generated program; the generated packages are built with opt-level 0, once with debug-assertions = false / overflow-checks = false and once with both true");
     run.assume("identifier collisions: a CAPTURED variable named like the macro's hidden helper fn is outside the family (skipped_out_of_domain): the helper is an item of the block that also holds the closure, and items shadow outer variables regardless of macro hygiene; locals, arguments, the recursion name and the closure's variable with that name are inside it");
@@ -1116,6 +1160,12 @@ fn main() {
         if captyped_run != (captyped.len() * PROFILES.len()) as u64 || envs_run != (envs.len() * PROFILES.len()) as u64 || deep_span.is_none() {
             run.machinery_failure("the capture-type family or the execution-environment family was not run completely");
         }
+        if temporaries_run != (temporaries.len() * PROFILES.len()) as u64 {
+            run.machinery_failure("the temporaries family was not run completely");
+        }
+        if outs.iter().any(|o| o.run.journal_entries.iter().any(|&e| e == 0)) {
+            run.machinery_failure("temporaries family: no activation ever found a guard alive, the RefCell borrowed or a mutex held on entry");
+        }
     }
 
     // samples: macro invocations written out, with one observed result each (the last one has typed arguments)
@@ -1128,6 +1178,7 @@ fn main() {
         n_fixed + typed.len() + expected.len() + (args.seed as usize * 41 + named.len() / 3 + 1) % named.len(),
         n_fixed + typed.len() + expected.len() + named.len() + (args.seed as usize * 43 + captyped.len() / 2 + 1) % captyped.len(),
         n_fixed + typed.len() + expected.len() + named.len() + captyped.len() + (args.seed as usize * 47 + 2) % envs.len(),
+        n_fixed + typed.len() + expected.len() + named.len() + captyped.len() + envs.len() + (args.seed as usize * 53 + temporaries.len() / 2 + 1) % temporaries.len(),
     ];
     for &i in &picks {
         // of the later families, a shape that shows more than termination
